@@ -218,6 +218,8 @@ def subtotal_rule_dependence(ctx: Ctx):
         where = f"{MA}::{cname}._prune_subtotals [dependence]"
         if forbidden:
             ctx.violated("subtotal-pruning.dependence", where, f"depends on {forbidden}", "depends only on the opposing prune flag, the opposing element count and the opposing emptiness mask", "subtotals disappear only when pruning is enabled on the opposing dimension and every opposing base vector is EMPTY - a hidden but non-empty vector does not count as empty")
+        elif missing and not reads:
+            ctx.undecided("subtotal-pruning.dependence", where, "FLOW derives no reads at all for this member", "depends on the opposing prune flag and the opposing element count")
         elif missing:
             ctx.violated("subtotal-pruning.dependence", where, f"does not depend on {missing}", "depends on the opposing prune flag and the opposing element count")
         else:
